@@ -67,6 +67,14 @@ def gen_plan(rng, tier, focus):
             lv = leaves_u if rng.random() < unknown_rate else leaves
             e = dp.rand_expr(rng, lv, rng.randrange(0, 7))
             qs.append(mk(e, gb_for()))
+        if len(leaves) >= 2:
+            # wide operators (17..65 operands) in which the LAST operand decides the answer
+            la, lb = leaves[0], leaves[-1]
+            k = len(ds.rows) % 4
+            for arity in ((17, 33), (18, 40), (31, 65), (16, 17))[k]:
+                qs.append(mk(("A", [la] * (arity - 1) + [lb]), [], writers[(arity + k) % len(writers)], modes[arity % len(modes)]))
+                qs.append(mk(("O", [la] * (arity - 1) + [lb]), [], writers[(arity + k + 1) % len(writers)], modes[(arity + 1) % len(modes)]))
+                qs.append(mk(("O", [leaves[i % len(leaves)] for i in range(arity)]), [], writers[k % len(writers)], modes[k % len(modes)]))
         if per_value:
             allv = [(c, v) for c in cols for v in sorted(vals[c])]
             if len(allv) > 5000:
